@@ -192,7 +192,7 @@ class C12(Prop):
                 d = decl(kd, fl)
                 twin = '#[derive(%s)] %s pub struct X%s %s' % (std, ' '.join(m['attrs_r']), g, (
                     m['where_r'] + ' ' + d) if kd == 'named' else (d + m['where_r'] + ';'))
-            src = [head + r.item, 'pub mod twin { use super::*; %s }' % twin, 'pub fn run() {']
+            src = [l2.decl(head, r.item, r.cid), 'pub mod twin { use super::*; %s }' % twin, 'pub fn run() {']
             # values: cartesian product (capped) per variant
             inst = ('::<%s>' % ', '.join(m['inst'])) if m['inst'] else ''
             vals = []
